@@ -1722,6 +1722,7 @@ vnaproperty_t *vnaproperty_vget_subtree(const vnaproperty_t *root,
     parser_t parser;
     scanner_t *scanner = &parser.prs_scn;
     vnaproperty_t **anchor;
+    vnaproperty_t *result = NULL;
 
     if ((anchor = parse_and_descend(&parser, (vnaproperty_t **)&root,
 		    /*set*/false, format, ap)) == NULL) {
@@ -1733,13 +1734,13 @@ vnaproperty_t *vnaproperty_vget_subtree(const vnaproperty_t *root,
      */
     if (scanner->scn_token != T_EOF) {
 	errno = EINVAL;
-	anchor = NULL;
 	goto out;
     }
+    result = *anchor;
 
 out:
     parser_free(&parser);
-    return *anchor;
+    return result;
 }
 
 /*
